@@ -19,6 +19,13 @@ EXCEPTIONS = {
     "InterruptedError": lambda: InterruptedError(_errno.EINTR, "interrupted"),
     "SerialException(EAGAIN)": lambda: serial.SerialException(_errno.EAGAIN, "read failed: try again"),
     "SerialException": lambda: serial.SerialException("injected"),
+    # what opening a port that another program holds raises (posix errno form, Windows wording)
+    "SerialException(EBUSY)": lambda: serial.SerialException(
+        _errno.EBUSY, "could not open port /dev/ttyACM0: [Errno 16] Device or resource busy: '/dev/ttyACM0'"),
+    "SerialException(EACCES)": lambda: serial.SerialException(
+        _errno.EACCES, "could not open port /dev/ttyACM0: [Errno 13] Permission denied: '/dev/ttyACM0'"),
+    "SerialException(denied)": lambda: serial.SerialException(
+        "could not open port 'COM3': PermissionError(13, 'Access is denied.', None, 5)"),
     "SerialTimeoutException": lambda: serial.SerialTimeoutException("injected write timeout"),
     "PortNotOpenError": lambda: serial.serialutil.PortNotOpenError(),
     "OSError": lambda: OSError(5, "injected I/O error"),
